@@ -511,3 +511,26 @@ package stats
 //@   check @ret4 [approx-differs] !((!hasTies && n1 <= MannWhitneyExactLimit && n2 <= MannWhitneyExactLimit) || (hasTies && n1 <= MannWhitneyTiesExactLimit && n2 <= MannWhitneyTiesExactLimit)) && alt == LocationDiffers && U1 != n1*n2/2.0 ==> p == 2 * min(ncdf(0, 1, (abs(U1 - n1*n2/2.0) - 0.5) / mwsigma(n1, n2, tcsum(T, len(T)))), 1 - ncdf(0, 1, (abs(U1 - n1*n2/2.0) - 0.5) / mwsigma(n1, n2, tcsum(T, len(T)))))
 //@   check @ret4 [approx-range] !((!hasTies && n1 <= MannWhitneyExactLimit && n2 <= MannWhitneyExactLimit) || (hasTies && n1 <= MannWhitneyTiesExactLimit && n2 <= MannWhitneyTiesExactLimit)) ==> 0 <= p && p <= 1
 //@   assigns nothing
+
+// ---------------------------------------------------------------------
+// small integer helpers
+
+//@ spec isumI(a []int, k int) int = k <= 0 ? 0 : isumI(a, k-1) + a[k-1]
+
+//@ func maxint
+//@   inline
+//@   model int
+//@   ensures [def] result == max(a, b)
+//@   assigns nothing
+
+//@ func minint
+//@   inline
+//@   model int
+//@   ensures [def] result == min(a, b)
+//@   assigns nothing
+
+//@ func sumint
+//@   model int
+//@   ensures [def] result == isumI(xs, len(xs))
+//@   loop 1 (x) invariant sum == isumI(xs, _k)
+//@   assigns nothing
